@@ -127,4 +127,16 @@ def handleC29 (j : Json) : Except String Verdict := do
     return .specfalse "non-finite-geometry" s!"a coordinate of the laid-out board is NaN/Inf ({w}); reported box {bb}, viewBox {vb}"
   | _ => throw s!"unknown kind {k}"
 
-def main : IO Unit := runDriver handleC29
+/-- a verdict is one line: user-derived text (error messages, labels) may carry line breaks -/
+def oneLine (s : String) : String := s.map fun c => if c == '\n' || c == '\r' then ' ' else c
+
+def cleanVerdict : Verdict → Verdict
+  | .mismatch s d => .mismatch (oneLine s) (oneLine d)
+  | .specfalse s d => .specfalse (oneLine s) (oneLine d)
+  | .bad w => .bad (oneLine w)
+  | v => v
+
+def main : IO Unit := runDriver fun j =>
+  match handleC29 j with
+  | .ok v => .ok (cleanVerdict v)
+  | .error e => .error (oneLine e)
